@@ -81,6 +81,16 @@ func runC03(c *core.Ctx) {
 	// differently from its siblings for some sources: same closed list as C08
 	c.Doc("C03.reader-discipline", "decoders consume their source only through the repository's decoders (no source-dependent paths)", 60)
 	ruleReaderDiscipline(c, newDecoderSet(c), "C03.reader-discipline", nil)
+	// the signature-driven side answers from the signature alone: a table of readers or
+	// types kept across calls is keyed by text that comes from the wire (it grows with every
+	// signature ever seen) and, keyed by less than the whole signature, hands one type's
+	// reader to another
+	c.Doc("C03.stateless", "meta/signature and type/value fill no package-level table outside their initialisers", 2)
+	rulePackageKeepsNoCache(c, "C03.stateless", "meta/signature")
+	rulePackageKeepsNoCache(c, "C03.stateless", "type/value")
+	// the reflection side may memoise per Go type, under the type itself
+	c.Doc("C03.cache-keys", "a table kept by the reflection codecs is keyed by the reflect.Type, not by a rendering of it", 1)
+	rulePackageCacheKeys(c, "C03.cache-keys", "type/encoding", "type/basic")
 }
 
 func ruleConstructors(c *core.Ctx, prims map[string]*primInfo) {
